@@ -95,6 +95,18 @@ func buildCases(rng *rand.Rand, tier string) []Case {
 	rev := b13.Clone()
 	rev.ALPN = []string{"http/1.1", "h2"}
 	add("alpn-http11-first", "normal", rev)
+	// hellos that fill their record: handshake message of exactly 16379 / 16380 / 16383 / 16384 octets (2^14 is the most one record may carry)
+	for i, n := range []int{4096, 16379, 16380, 16383, 16384} {
+		d := b13.Clone()
+		if i%2 == 1 {
+			d.ALPN = []string{"http/1.1"}
+		}
+		if pd, err := d.PadTo(n); err == nil {
+			add(fmt.Sprintf("hello-of-%d-octets", n), "normal", pd)
+		} else {
+			panic("PadTo: " + err.Error())
+		}
+	}
 	// GREASE cipher at every position (first / middle / last)
 	step := 1
 	if tier == "quick" {
